@@ -7,7 +7,7 @@ import mb, cligen
 SHUT = ["ok", "p,ok", "e:NotConnected", "e:BrokenPipe"] + ["e:" + k for k in cligen.KINDS if k not in ("NotConnected", "BrokenPipe")]
 
 
-ENDS = ["ok", "eof", "eofmid", "rerr", "garbage", "foreign", "werr", "oversize", "dropw", "dropr"]
+ENDS = ["ok", "eof", "eofmid", "rerr", "garbage", "foreign", "werr", "oversize", "dropw", "dropr", "dropw_werr", "werr_werr"]
 
 
 class PROP(Prop):
@@ -16,7 +16,7 @@ class PROP(Prop):
     rule = ("all operation sequences of length <= 4 (quick) / 5 (thorough) over {call, disconnect, set_slave}, crossed with shutdown outcomes "
             "{Ok, Pending then Ok, every tested io::ErrorKind} and, for the calls before the first disconnect, with every way a call can end "
             "(reply, orderly end of stream, end of stream inside the reply, read error, undecodable reply, foreign header, write error, refused "
-            "oversized request, abandoned while sending / receiving), TCP and RTU, plus random longer ones.  Oracle: the transport's shutdown "
+            "oversized request, abandoned while sending / receiving, also with a transport that would refuse any further write), TCP and RTU, plus random longer ones.  Oracle: the transport's shutdown "
             "completes exactly once (first disconnect); its result is Ok for Ok/NotConnected/BrokenPipe, the error otherwise; afterwards every "
             "call returns NotConnected and writes nothing, every disconnect returns Ok without touching the transport. "
             "non-trivial = sequence containing a disconnect followed by another operation")
@@ -76,6 +76,11 @@ class PROP(Prop):
                         req = ("WMR", 0, [1] * 130)
                     elif e == "dropw":
                         W, drop = "p,p", "1"
+                    elif e == "dropw_werr":
+                        # abandoned after a partial write; the transport would refuse any further write (disconnect must not attempt one)
+                        W, drop = "a3,p,e:PermissionDenied,e:PermissionDenied", "0"
+                    elif e == "werr_werr":
+                        W = "a3,e:TimedOut,e:PermissionDenied,e:PermissionDenied"
                     elif e == "dropr":
                         R, drop = "p,p,p", "2"
                 ops.append(cligen.call_op(req, W=W, R=R, drop=drop))
